@@ -24,28 +24,35 @@ def orElse (a : Option Str) (b : Option Str) : Option Str :=
   | some v => some v
   | none => b
 
-/-- value given to `k` by the lines of one file, listed LAST LINE FIRST -/
-def fileValRev (look : Look) : List Line → Key → Option Str
-  | [], _ => none
+/-- value of `k` after the lines of one file, listed LAST LINE FIRST; `base` = what was there before the file -/
+def fileValRevFrom (look : Look) (base : Key → Option Str) : List Line → Key → Option Str
+  | [], k => base k
   | .assign k' v :: earlier, k =>
-    if k' = k then some (evalSegs (fun n => orElse (look n) (fileValRev look earlier n)) v)
-    else fileValRev look earlier k
+    if k' = k then some (evalSegs (fun n => orElse (look n) (fileValRevFrom look base earlier n)) v)
+    else fileValRevFrom look base earlier k
   | .bare k' :: earlier, k =>
-    if k' = k then orElse (look k) (fileValRev look earlier k)
-    else fileValRev look earlier k
-  | .bad :: earlier, k => fileValRev look earlier k
+    if k' = k then orElse (look k) (fileValRevFrom look base earlier k)
+    else fileValRevFrom look base earlier k
+  | .bad :: earlier, k => fileValRevFrom look base earlier k
 
-def fileVal (look : Look) (ls : List Line) (k : Key) : Option Str := fileValRev look ls.reverse k
+/-- value given to `k` by a file (lines in file order) read with the lookup `look` -/
+def fileVal (look : Look) (ls : List Line) (k : Key) : Option Str :=
+  fileValRevFrom look (fun _ => none) ls.reverse k
 
-/-- value given to `k` by the env files, listed LAST FILE FIRST; references see earlier files, then `penv` -/
-def filesValRev (penv : List (Key × Str)) : List (List Line) → Key → Option Str
-  | [], _ => none
+/-- what a reference inside an env file sees before the file's own earlier lines:
+    the earlier files, then the project environment -/
+def envLook (penv : List (Key × Str)) (earlier : Key → Option Str) : Look :=
+  fun n => orElse (earlier n) (lookup n penv)
+
+/-- value of `k` after the env files, listed LAST FILE FIRST; `base` = what was there before -/
+def filesValRevFrom (penv : List (Key × Str)) (base : Key → Option Str) : List (List Line) → Key → Option Str
+  | [], k => base k
   | f :: earlier, k =>
-    orElse (fileVal (fun n => orElse (filesValRev penv earlier n) (lookup n penv)) f k)
-      (filesValRev penv earlier k)
+    orElse (fileVal (envLook penv (filesValRevFrom penv base earlier)) f k) (filesValRevFrom penv base earlier k)
 
+/-- value given to `k` by the env files (in `env_file` order) -/
 def filesVal (penv : List (Key × Str)) (files : List (List Line)) (k : Key) : Option Str :=
-  filesValRev penv files.reverse k
+  filesValRevFrom penv (fun _ => none) files.reverse k
 
 /-- the final environment of a service at key `k`:
     `none` = key absent, `some none` = present without value (unset), `some (some v)` = value -/
@@ -57,13 +64,28 @@ def finalEnv (penv : List (Key × Str)) (files : List (List Line)) (environment 
   | none => (filesVal penv files k).map some
 
 /-- label files: references see earlier label files only -/
-def labelFilesValRev : List (List Line) → Key → Option Str
-  | [], _ => none
+def labelFilesValRevFrom (base : Key → Option Str) : List (List Line) → Key → Option Str
+  | [], k => base k
   | f :: earlier, k =>
-    orElse (fileVal (fun n => labelFilesValRev earlier n) f k) (labelFilesValRev earlier k)
+    orElse (fileVal (labelFilesValRevFrom base earlier) f k) (labelFilesValRevFrom base earlier k)
+
+def labelFilesVal (files : List (List Line)) (k : Key) : Option Str :=
+  labelFilesValRevFrom (fun _ => none) files.reverse k
 
 def finalLabel (files : List (List Line)) (labels : List (Key × Str)) (k : Key) : Option Str :=
-  orElse (lookup k labels) (labelFilesValRev files.reverse k)
+  orElse (lookup k labels) (labelFilesVal files k)
+
+/-- the lines of the env files that exist as regular files, in `env_file` order -/
+def envContents (fs : FS) (efs : List EnvFile) : List (List Line) :=
+  efs.filterMap fun f => match fs f.path with
+    | some (.file ls) => some ls
+    | _ => none
+
+/-- the lines of the label files, in `label_file` order -/
+def labelContents (fs : FS) (paths : List Str) : List (List Line) :=
+  paths.filterMap fun p => match fs p with
+    | some (.file ls) => some ls
+    | _ => none
 
 /-- the same as a fold over ordered layers, lowest precedence first: a later layer that speaks about `k` wins -/
 def pick {α : Type} (layers : List (Key → Option α)) (k : Key) : Option α :=
